@@ -13,8 +13,8 @@ func e2eProp(id, dir string, bounds, outside []string) *Prop {
 	return &Prop{
 		ID: id, PkgDir: "interp", PkgPath: interpPath, PkgName: "interp",
 		Harness:    []string{"interp_common.go", "E2E.go"},
-		InlinePkgs: []string{"github.com/traefik/yaegi/stdlib"},
-		InitFiles:  map[string][]string{"github.com/traefik/yaegi/stdlib": {"_fmt.go", "_io.go", "_sort.go", "stdlib.go", "wrapper-composed.go"}},
+		InlinePkgs: []string{"github.com/traefik/yaegi/stdlib", "errors"},
+		InitFiles:  map[string][]string{"github.com/traefik/yaegi/stdlib": {"_errors.go", "_fmt.go", "_io.go", "_sort.go", "stdlib.go", "wrapper-composed.go"}},
 		Instrument: runidInstr, GenAST: true, E2EDir: dir, TestFiles: []string{"ast_dump_test.go.txt"},
 		Setup:     func(e *sym.Engine) { e.MaxDepth = 4000; e.MaxSteps = 20000000 },
 		Redirects: map[string]string{ip + "parse": "vmE2EParse", ip + "ast": "vmE2EAst", ip + "stripReceiverFromArgs": "vmStripReceiver"},
@@ -78,6 +78,9 @@ func init() {
 	props["C01"] = e2eProp("C01", "e2e_programs",
 		[]string{"the program texts of harness/e2e_programs, each for ALL values of its two integer inputs in (-1000, 1000) (quick) or (-2^31, 2^31) (thorough)", "up to 400 solver decisions and 20 million executed SSA instructions per path"},
 		[]string{"every program outside the corpus", "floats, goroutines and channels, fmt output, other input types", "the parser"})
+	props["C07"] = e2eProp("C07", "e2e_c07",
+		[]string{"the program texts of harness/e2e_c07: script code calling the functions of package host, whose signatures cover structs by value and by pointer, pointers returned by the host, arrays by value and by pointer, slices (read, mutated in place, grown, nil, sub-slices, slices of arrays), maps (read, written, nil, of structs), variadic calls (none, several, spread, empty spread), multiple results with an error, bool/int8/uint16/string/rune parameters and results, named basic types, slices of structs, function-typed parameters (named functions, closures, method values, nil) and results (host closures composed with script functions) in both directions, callbacks taking host structs and returning (int, error); each for ALL values of its two integer inputs in (-1000, 1000) (quick) or (-2^31, 2^31) (thorough)"},
+		[]string{"signatures outside package host of harness/E2E.go (the property quantifies over a type grammar: this is a bounded claim)", "host variables", "functions and variables obtained from the interpreter by Eval of a symbol, Symbols or Globals and used natively (the other direction is exercised through callbacks only)", "floats, complex, channels", "the parser"})
 	props["C05"] = e2eProp("C05", "e2e_c05",
 		[]string{"the program texts of harness/e2e_c05 (method sets, value and pointer receivers, embedding to depth 3 with promoted and shadowed methods, method values, interfaces with overlapping method sets, one- and two-result assertions, type switches with concrete, interface, several-type, nil and default clauses, interface-typed fields and elements, interpreted values handed to compiled code as fmt.Stringer, error, sort.Interface, io.Reader, io.Writer), each for ALL values of its two integer inputs in (-1000, 1000) (quick) or (-2^31, 2^31) (thorough)"},
 		[]string{"every type hierarchy outside the corpus (the property quantifies over random hierarchies: this is a bounded claim)", "method expressions (known finding of C01)", "generic types", "compiled interfaces other than the five the host package uses", "the parser"})
